@@ -19,14 +19,14 @@ import time
 
 VERIF = os.path.dirname(os.path.dirname(os.path.abspath(__file__)))
 REPO = os.environ.get("VERIF_REPO", "/repo")
-BUILD = os.path.join(VERIF, "_build")
+BUILD = os.environ.get("VERIF_BUILD") or os.path.join(VERIF, "_build")
 COQ = os.path.join(VERIF, "coq")
 THEORIES = os.path.join(COQ, "theories")
 PROPS = os.path.join(THEORIES, "props")
 OCAML = os.path.join(VERIF, "ocaml")
 PROBES = os.path.join(VERIF, "probes")
-EVIDENCE = os.path.join(VERIF, "evidence")
-REPLAYS = os.path.join(VERIF, "replays")
+EVIDENCE = os.environ.get("VERIF_EVIDENCE_DIR") or os.path.join(VERIF, "evidence")
+REPLAYS = os.environ.get("VERIF_REPLAYS_DIR") or os.path.join(VERIF, "replays")
 CORPUS = os.path.join(VERIF, "corpus")
 
 GO_ENV = dict(os.environ)
@@ -68,8 +68,10 @@ class BuildError(Exception):
 
 class Lock:
     def __init__(self, name):
+        lockdir = os.path.join(VERIF, "_build")   # one lock directory whatever VERIF_BUILD says (coq/ is shared)
+        os.makedirs(lockdir, exist_ok=True)
         os.makedirs(BUILD, exist_ok=True)
-        self.path = os.path.join(BUILD, name + ".lock")
+        self.path = os.path.join(lockdir, name + ".lock")
 
     def __enter__(self):
         self.f = open(self.path, "w")
